@@ -53,6 +53,9 @@ pub struct MuxCase {
     /// the server writes its data only afterwards; 2 = the same with the roles swapped. The direction that is
     /// still open must deliver every byte (a FIN ends one direction only).
     pub half_close: Vec<u8>,
+    /// the server side starts writing on a stream the moment the stream appears, while the client may still be busy
+    /// opening it or later ones (a peer that greets on connect); only with sequential opens
+    pub eager_server: bool,
 }
 
 impl MuxCase {
@@ -67,6 +70,7 @@ impl MuxCase {
             "scheme": self.scheme, "sched_p": self.sched_p, "inline_first": self.inline_first,
             "locator": {"shard": self.locator.0 as u64, "index": self.locator.1 as u64}, "concurrent_opens": self.concurrent_opens,
             "half_close": self.half_close,
+            "eager_server": self.eager_server,
         })
     }
     pub fn from_json(v: &Value) -> Option<MuxCase> {
@@ -93,6 +97,7 @@ impl MuxCase {
             locator: (0, 0),
             concurrent_opens: v.get("concurrent_opens").and_then(|x| x.as_bool()).unwrap_or(false),
             half_close: v.get("half_close").and_then(|x| x.as_array()).map(|a| a.iter().filter_map(|x| x.as_u64()).map(|x| x as u8).collect()).unwrap_or_default(),
+            eager_server: v.get("eager_server").and_then(|x| x.as_bool()).unwrap_or(false),
         })
     }
     pub fn shape_key(&self) -> String {
@@ -241,7 +246,7 @@ pub fn gen_case(rng: &mut Rng, max_streams: usize, budget_bytes: usize) -> MuxCa
             }
         })
         .collect();
-    MuxCase { seed: rng.next(), streams, c2s, s2c, scheme, sched_p: if rng.chance(0.5) { 0.3 } else { 0.0 }, inline_first: rng.chance(0.3), locator: (0, 0), concurrent_opens: rng.chance(0.25), half_close }
+    MuxCase { seed: rng.next(), streams, c2s, s2c, scheme, sched_p: if rng.chance(0.5) { 0.3 } else { 0.0 }, inline_first: rng.chance(0.3), locator: (0, 0), concurrent_opens: rng.chance(0.25), half_close, eager_server: rng.chance(0.3) }
 }
 
 /// Build an owned `Stream` (so that its AsyncRead/AsyncWrite impls are reachable)
@@ -437,6 +442,33 @@ async fn run_case_async(case: &MuxCase) -> MuxResult {
     let n = case.streams.len();
     let seed = case.seed;
 
+    let hc = |i: usize| case.half_close.get(i).copied().unwrap_or(0);
+    // "this stream's first direction has been ended" signals (a stored permit: order of notify/wait does not matter)
+    let ended: Vec<Arc<tokio::sync::Notify>> = (0..n).map(|_| Arc::new(tokio::sync::Notify::new())).collect();
+    // eager server: a task that takes every stream the moment it appears and starts the server's writer and reader
+    // for it at once (the k-th stream to appear is the k-th one opened: opens are sequential in this mode)
+    let eager = if case.eager_server && !case.concurrent_opens {
+        let mut ns = std::mem::replace(&mut pair.new_streams, tokio::sync::mpsc::unbounded_channel().1);
+        let server = pair.server.clone();
+        let plans = case.streams.clone();
+        let hcv = case.half_close.clone();
+        let ended2 = ended.clone();
+        Some(tokio::spawn(async move {
+            let mut out = Vec::new();
+            for (k, (up, down)) in plans.iter().enumerate() {
+                let Some(st) = ns.recv().await else { break };
+                let id = st.id() as u64;
+                let (br, bw) = make_bridge(&st, up.read_api, down.write_api);
+                let mode = hcv.get(k).copied().unwrap_or(0);
+                let w = tokio::spawn(write_dir_hc(server.clone(), st.clone(), Pattern::new(seed, id, DOWN), down.clone(), false, bw, mode == 2, mode == 1, ended2[k].clone()));
+                let r = tokio::spawn(checked_reader(st.clone(), Pattern::new(seed, id, UP), up.total(), up.read_api, up.read_bufs.clone(), br));
+                out.push((k, st, w, r));
+            }
+            out
+        }))
+    } else {
+        None
+    };
     // open streams (first data frame = first up chunk when there is one)
     let mut client_streams: Vec<Arc<Stream>> = Vec::new();
     let mut first_sent = vec![false; n];
@@ -515,9 +547,6 @@ async fn run_case_async(case: &MuxCase) -> MuxResult {
 
     let mut tasks: Vec<(u64, usize, tokio::task::JoinHandle<ReadOutcome>)> = Vec::new();
     let mut writers: Vec<tokio::task::JoinHandle<Result<(), String>>> = Vec::new();
-    let hc = |i: usize| case.half_close.get(i).copied().unwrap_or(0);
-    // "this stream's first direction has been ended" signals (a stored permit: order of notify/wait does not matter)
-    let ended: Vec<Arc<tokio::sync::Notify>> = (0..n).map(|_| Arc::new(tokio::sync::Notify::new())).collect();
     // a writer that ends its direction afterwards / that starts only after the other direction was ended
     async fn write_dir_hc(session: Arc<Session>, stream: Arc<Stream>, pat: Pattern, plan: DirPlan, skip_first: bool, owned: Option<OwnedW>, ends: bool, waits: bool, ended: Arc<tokio::sync::Notify>) -> Result<(), String> {
         if waits {
@@ -544,23 +573,40 @@ async fn run_case_async(case: &MuxCase) -> MuxResult {
     // server side: accept streams as they appear, start down writers / up readers
     let id_to_idx: HashMap<u32, usize> = client_streams.iter().enumerate().map(|(i, s)| (s.id(), i)).collect();
     let mut server_streams: std::collections::BTreeMap<usize, Arc<Stream>> = std::collections::BTreeMap::new();
-    let accept = async {
-        while server_streams.len() < n {
-            match pair.new_streams.recv().await {
-                Some(s) => {
-                    if let Some(&i) = id_to_idx.get(&s.id()) {
-                        server_streams.insert(i, s);
-                    }
+    let mut eager_started = false;
+    let accepted = if let Some(h) = eager {
+        eager_started = true;
+        match tokio::time::timeout(Duration::from_secs(900), h).await {
+            Ok(Ok(v)) => {
+                for (k, st, w, r) in v {
+                    server_streams.insert(k, st);
+                    writers.push(w);
+                    tasks.push((UP, k, r));
                 }
-                None => break,
+                server_streams.len() == n
             }
+            _ => false,
         }
+    } else {
+        let accept = async {
+            while server_streams.len() < n {
+                match pair.new_streams.recv().await {
+                    Some(s) => {
+                        if let Some(&i) = id_to_idx.get(&s.id()) {
+                            server_streams.insert(i, s);
+                        }
+                    }
+                    None => break,
+                }
+            }
+        };
+        let in_time = tokio::time::timeout(Duration::from_secs(900), accept).await.is_ok();
+        in_time && server_streams.len() == n
     };
-    let accepted = tokio::time::timeout(Duration::from_secs(900), accept).await.is_ok() && server_streams.len() == n;
     if !accepted {
         problems.push((cause_of(case, UP, 0), "stream_never_reached_peer".into(), format!("only {} of {n} opened streams appeared at the server within 900 virtual seconds", server_streams.len())));
     }
-    for (i, st) in &server_streams {
+    for (i, st) in server_streams.iter().filter(|_| !eager_started) {
         let (up, down) = &case.streams[*i];
         let id = st.id() as u64;
         let (br, bw) = make_bridge(st, up.read_api, down.write_api);
@@ -644,6 +690,7 @@ pub fn record(rep: &mut Report, prop_class: &str, case: &MuxCase, res: &MuxResul
     rep.add("frames_parsed_c2s", res.frames_c2s);
     rep.add("sched_point_hits", res.sched_hits);
     rep.add("streams_with_one_direction_ended_first", case.half_close.iter().filter(|m| **m != 0).count() as u64);
+    rep.add("cases_with_a_server_that_writes_as_soon_as_a_stream_appears", (case.eager_server && !case.concurrent_opens) as u64);
     rep.seen("interleavings", format!("{:016x}", res.interleaving));
     rep.seen("fragmentation_classes", format!("{} / {}", case.c2s.describe(), case.s2c.describe()));
     let mut seen = std::collections::HashSet::new();
